@@ -563,9 +563,17 @@ func (p c04) Run(t *testing.T, s harness.Scenario) harness.Outcome {
 									}
 								}
 							}
-							if taught {
+							slowNode := false
+							for _, f := range sc.Faults {
+								if f.Kind == "stall" {
+									slowNode = true // a slow node can hold the CLUSTER NODES reply, i.e. the table refresh, back for a long time
+								}
+							}
+							if taught && !slowNode {
 								clause = "error-after-redirection-taught-the-route"
 								note = "; the proxy had been answered MOVED for this slot long before the failing request (30 simulated seconds plus 40 times the timer slack)"
+							} else if note == "" && taught {
+								note = "; (stale route: the slot had left the crashed master; the proxy had been redirected for it, but a slow node held its table refresh back)"
 							} else if note == "" {
 								note = "; (stale route: the slot had left the crashed master and the proxy had not been redirected for it yet)"
 							}
@@ -578,7 +586,26 @@ func (p c04) Run(t *testing.T, s harness.Scenario) harness.Outcome {
 							clause = "linearizable-read-at-demoted-master"
 						}
 					}
-					return &simrtViolation{Clause: clause, Detail: fmt.Sprintf("history of key %q has no linearization w.r.t. a single Redis server: %s%s", k, describe(), note)}
+					// what the nodes saw of this key, in their order
+					var seen []string
+					for _, le := range cl.Log {
+						for _, a := range le.Args[1:] {
+							if string(a) == k {
+								how := "executed"
+								if !le.Accepted {
+									how = "answered " + string(trunc(le.Reply.Str, 30))
+								} else if le.Asking {
+									how = "executed after ASKING"
+								}
+								seen = append(seen, fmt.Sprintf("step %d node %d %q: %s", le.Step, le.Node, trunc(bytes.Join(le.Args, []byte(" ")), 40), how))
+								break
+							}
+						}
+					}
+					if len(seen) > 24 {
+						seen = append(seen[:12], append([]string{"..."}, seen[len(seen)-12:]...)...)
+					}
+					return &simrtViolation{Clause: clause, Detail: fmt.Sprintf("history of key %q has no linearization w.r.t. a single Redis server: %s%s; node side: %s", k, describe(), note, strings.Join(seen, "; "))}
 				case porcupine.Unknown:
 					w.inconclusive = true
 					continue
@@ -632,6 +659,13 @@ func (p c04) Run(t *testing.T, s harness.Scenario) harness.Outcome {
 								clause = "program-order"
 								witness = w + " (neither request was redirected)"
 							}
+						}
+					}
+					for _, o := range ops {
+						if atReplica[formKey(o.Input.(c04In).args)] && sc.Env.ReadStrategy == 0 {
+							// under the MASTER read strategy a read was executed by a node that is a replica: the demoted master
+							// keeps serving reads (known finding), here it shows as a read that seems to run out of order
+							clause = "linearizable-read-at-demoted-master"
 						}
 					}
 					if witness != "" {
